@@ -481,6 +481,13 @@ class AbstractGroup:
             def hex(self):
                 raise core.Unsupported("hex of abstract coordinate")
 
+        # the one value of the real constructor that has no discrete-log reading: probe it on the real class of this run
+        INF_PARITY = []
+        try:
+            INF_PARITY.append(S256Point(None, None).parity)
+        except AttributeError:
+            pass
+
         class AbstractPoint(S256Point):
             def __init__(self, x=None, y=None, a=None, b=None, d=None):
                 if d is None:
@@ -522,7 +529,10 @@ class AbstractGroup:
             @property
             def parity(self):
                 if branch(self.is_inf):
-                    raise AttributeError("parity")  # the real class has no parity attribute at infinity
+                    # what the real constructor (current source) leaves on the point at infinity: no attribute at all, or a value
+                    if INF_PARITY:
+                        return INF_PARITY[0]
+                    raise AttributeError("parity")
                 xn, pn = grp.coords(self.d)
                 return 1 if branch(pn) else 0
 
